@@ -428,7 +428,16 @@ impl Server {
     /// Accept a single new connection
     /// Returns true if connection was accepted, false if would block
     fn accept_single_connection(&mut self) -> Result<bool> {
-        if let Some((stream, addr)) = self.listener.accept()? {
+        // A failed accept (out of file descriptors, a connection reset before it was accepted)
+        // is a condition clients can provoke: it must not stop the server
+        let accepted = match self.listener.accept() {
+            Ok(accepted) => accepted,
+            Err(e) => {
+                eprintln!("Failed to accept connection: {}", e);
+                return Ok(false);
+            }
+        };
+        if let Some((stream, addr)) = accepted {
             let id = CONN_ID_COUNTER.fetch_add(1, Ordering::Relaxed);
             
             // Update statistics
